@@ -183,6 +183,26 @@ theorem dateTimeText_no_dot (Y M D h mi s : Nat) : ∀ c ∈ dateTimeText Y M D 
   · subst hc; decide
   · exact hd _ _ hc
 
+theorem digit_ne_comma {c : Char} (h : isDigit c = true) : c ≠ ',' := by
+  intro e; subst e; revert h; decide
+
+theorem dateTimeText_no_comma (Y M D h mi s : Nat) : ∀ c ∈ dateTimeText Y M D h mi s, c ≠ ',' := by
+  intro c hc
+  simp only [dateTimeText, List.mem_append, List.mem_cons] at hc
+  have hd : ∀ w n, c ∈ padDigits w n → c ≠ ',' := fun w n hm => digit_ne_comma (allDigits_padDigits w n c hm)
+  rcases hc with hc | hc | hc | hc | hc | hc | hc | hc | hc | hc | hc
+  · exact hd _ _ hc
+  · subst hc; decide
+  · exact hd _ _ hc
+  · subst hc; decide
+  · exact hd _ _ hc
+  · subst hc; decide
+  · exact hd _ _ hc
+  · subst hc; decide
+  · exact hd _ _ hc
+  · subst hc; decide
+  · exact hd _ _ hc
+
 theorem tooManyFracDigits_text (pre ds : Str) (hds : allDigits ds) (hl : ds.length ≤ 9) :
     tooManyFracDigits (pre ++ ('.' :: ds ++ ['Z'])) = false := by
   unfold tooManyFracDigits
@@ -218,6 +238,21 @@ theorem fracText_shape (N : Nat) :
     · split
       · exact ⟨_, rfl, allDigits_padDigits _ _, by simp [length_padDigits]⟩
       · exact ⟨_, rfl, allDigits_padDigits _ _, by simp [length_padDigits]⟩
+
+/-- the formatted text contains no ',' -/
+theorem fmtText_no_comma (Y M D h mi s N : Nat) :
+    ¬ ',' ∈ dateTimeText Y M D h mi s ++ (fracText N ++ ['Z']) := by
+  intro hc
+  simp only [List.mem_append, List.mem_singleton] at hc
+  rcases hc with hc | hc | hc
+  · exact dateTimeText_no_comma _ _ _ _ _ _ _ hc rfl
+  · rcases fracText_shape N with h0 | ⟨ds, hds, hall, _⟩
+    · rw [h0] at hc; cases hc
+    · rw [hds] at hc
+      rcases List.mem_cons.mp hc with e | e
+      · revert e; decide
+      · exact digit_ne_comma (hall _ e) rfl
+  · revert hc; decide
 
 /-! ### the year stays within 1..9999 on the Timestamp range -/
 
